@@ -168,6 +168,8 @@ def run(ctx):
                 nbad += 1
                 if nbad == 1:
                     out["broken"].append({"kind": "correspondence", "what": "generated HALOFIT closed form at Float differs from the real halofit()", "detail": {"case": desc, "impl": got[:3].tolist(), "model": g if isinstance(g, str) else g[:3].tolist()}})
+    for key_, what_, script_ in realfuzz.cosmology_scenarios("Transfer", "nonlinear_delta_k"):
+        viol(key_, what_, {"script": script_})
     out["coverage"] = {
         "evaluations": len(reqs) + ncase, "programs": len(exp), "disagreements_checked": len(exp), "traces_validated_against_impl": len(exp),
         "distinct_nontrivial": ncase,
